@@ -261,7 +261,7 @@ def build_value(d):
 
 
 # every kind of original error: the message must render and end the text
-N_MESSAGE = 24 + 5 * 4 * 3 + 1 + 5 + 5
+N_MESSAGE = 24 + 5 * 4 * 3 + 1 + 5 + 5 + 5
 
 
 def message_cases():
@@ -303,7 +303,29 @@ def message_cases():
         # a callable that runs a nested glom, logs (stringifies) its error and lets it propagate
         ('nested-logged', {'a': {'x': {}}}, ('a', _logging_nested)),
         ('nested-plain', {'a': {'x': {}}}, ('a', _plain_nested)),
-    ] + guard_cases() + note_cases() + depth_cases()
+    ] + guard_cases() + note_cases() + depth_cases() + recovered_cases()
+
+
+def _refuse_all(x):
+    return False
+
+
+def recovered_cases():
+    """F33: a sub-spec recovers from a failure without evaluating anything afterwards (default_factory, Not) and its parent then
+    fails by itself: the recovered failure is not on the path of the error"""
+    from glom import Coalesce, Check, Not, T, Or, Call
+    leak = ["Spec: 'zz'", "could not access 'zz'"]
+
+    def boom(*a):
+        raise ValueError('boom')
+    return [
+        ('recovered:default-factory', {'a': 1}, Check(Coalesce('zz', default_factory=int), validate=_refuse_all), ['CheckError'], leak),
+        ('recovered:not', {'a': 1}, Check(Not('zz'), validate=_refuse_all), ['CheckError'], leak),
+        ('recovered:factory-in-chain', {'a': 1}, ('a', Check(Coalesce('zz', 'yy', default_factory=list), validate=_refuse_all)), ['CheckError'],
+         leak + ["Spec: 'yy'"]),
+        ('recovered:nested', {'a': 1}, Check(Check(Coalesce('zz', default_factory=int), validate=_accept), validate=_refuse_all), ['CheckError'], leak),
+        ('recovered:control', {'a': 1}, Check(Coalesce('zz', default=0), validate=_refuse_all), ['CheckError'], leak),
+    ]
 
 
 def depth_cases():
@@ -413,6 +435,7 @@ def run_message(case):
     entry = message_cases()[case['i']]
     name, target, spec = entry[:3]
     needs = entry[3] if len(entry) > 3 else []
+    forbidden = entry[4] if len(entry) > 4 else []
     try:
         glom.glom(target, spec)
         return {'name': name, 'raised': False}
@@ -425,6 +448,7 @@ def run_message(case):
             return out
         tl = text.split('\n')
         out['missing'] = [x for x in needs if x not in text]
+        out['leaked'] = [x for x in forbidden if x in text]
         out['has_trace'] = len(tl) > 2 and tl[1] == ' Target-spec trace (most recent last):'
         out['first_is_target'] = len(tl) > 2 and tl[2].startswith(' - Target: ')
         try:
@@ -551,6 +575,8 @@ def direct_oracle(case, out):
             return 'no target-spec trace beginning with the root target (%s)' % out['name']
         if out.get('missing'):
             return 'the trace of %s does not show %r' % (out['name'], out['missing'])
+        if out.get('leaked'):
+            return 'the trace of %s shows %r: a failure that was recovered from, not on the path of the error' % (out['name'], out['leaked'])
         if not out['last_ok']:
             return 'the message does not end with the original error (%s): %r' % (out['name'], out['last'])
         if not out['width_ok']:
